@@ -133,8 +133,13 @@ theorem scaled_overflow {a P : Int} (hP : 1 ≤ P) (h : checkedI128 (a * P) = no
 
 /-! ### Decimal against Decimal -/
 
+/-- `Dom` plus the coefficient `i128::MIN`: what `Decimal::from(i128)` can produce (the comparisons do not need `i128::MIN` excluded) -/
+def DomI (d : Dec) : Prop := I128_MIN ≤ d.coeff ∧ d.coeff ≤ I128_MAX ∧ d.nfrac ≤ 18
+
+theorem Dom.domI {d : Dec} (h : Dom d) : DomI d := ⟨Int.le_of_lt h.1, h.2.1, h.2.2⟩
+
 /-- `partial_cmp` on two Decimals is never `None` and is the comparison of the values -/
-theorem partialCmp_spec (x y : Dec) (hx : Dom x) (hy : Dom y) :
+theorem partialCmp_spec_full (x y : Dec) (hx : DomI x) (hy : DomI y) :
     partialCmp x y = some (Spec.cmp x.coeff x.nfrac y.coeff y.nfrac) := by
   obtain ⟨hx1, hx2, hx3⟩ := hx
   obtain ⟨hy1, hy2, hy3⟩ := hy
@@ -169,6 +174,9 @@ theorem partialCmp_spec (x y : Dec) (hx : Dom x) (hy : Dom y) :
       · rw [if_neg (by omega), intCompare_lt (by omega)]
       · rw [if_pos ha, intCompare_gt (by omega)]
 
+theorem partialCmp_spec (x y : Dec) (hx : Dom x) (hy : Dom y) :
+    partialCmp x y = some (Spec.cmp x.coeff x.nfrac y.coeff y.nfrac) := partialCmp_spec_full x y hx.domI hy.domI
+
 /-- `Ord::cmp` never panics -/
 theorem cmp_spec (x y : Dec) (hx : Dom x) (hy : Dom y) :
     Model.cmp x y = .ok (Spec.cmp x.coeff x.nfrac y.coeff y.nfrac) := by
@@ -176,7 +184,7 @@ theorem cmp_spec (x y : Dec) (hx : Dom x) (hy : Dom y) :
   rw [partialCmp_spec x y hx hy]
 
 /-- `==` -/
-theorem decimalEq_spec (x y : Dec) (hx : Dom x) (hy : Dom y) :
+theorem decimalEq_spec_full (x y : Dec) (hx : DomI x) (hy : DomI y) :
     decimalEq x y = (Spec.cmp x.coeff x.nfrac y.coeff y.nfrac == .eq) := by
   obtain ⟨hx1, hx2, hx3⟩ := hx
   obtain ⟨hy1, hy2, hy3⟩ := hy
@@ -221,6 +229,9 @@ theorem decimalEq_spec (x y : Dec) (hx : Dom x) (hy : Dom y) :
       rcases scaled_overflow (tenPow_ge_one _) hc with ⟨ha, hb⟩ | ⟨ha, hb⟩
       · rw [intCompare_lt (by omega)]; rfl
       · rw [intCompare_gt (by omega)]; rfl
+
+theorem decimalEq_spec (x y : Dec) (hx : Dom x) (hy : Dom y) :
+    decimalEq x y = (Spec.cmp x.coeff x.nfrac y.coeff y.nfrac == .eq) := decimalEq_spec_full x y hx.domI hy.domI
 
 /-! ### Decimal against a primitive integer -/
 
